@@ -2,10 +2,16 @@
 
 package blockchain
 
-import "time"
+import (
+	"time"
+
+	"github.com/33cn/chain33/types"
+)
 
 // No-op twins of the conformance-harness hooks of push_verif.go (build tag "verif").
 
 func verifPushSleep(d time.Duration) time.Duration { return d }
 
 func verifPushGate(string, *pushNotify) {}
+
+func verifPushMaxSize(_ *types.PushSubscribeReq, maxSize int) int { return maxSize }
